@@ -96,8 +96,10 @@ def run_cadence(case: dict) -> Outcome:
                 out.v("counter-not-reset", f"{tag}: successor has already_tried={new.retries.already_tried}")
             if new.retries.max_amount != params.retries.max_amount:
                 out.v("budget-changed", f"{tag}: successor max retries {new.retries.max_amount}")
-            if new.timestamp < now:
-                out.v("ttl-clock-not-restarted", f"{tag}: successor timestamp {new.timestamp} is before its scheduling at {now}")
+            if new.timestamp != now:
+                # the time-to-live clock restarts at the rescheduling - not earlier (old clock kept) and not later (clock that only
+                # starts at the slot: the message could never expire while it waits)
+                out.v("ttl-clock-not-restarted", f"{tag}: successor timestamp {new.timestamp}, but it was scheduled at {now}")
             if s_next is None:
                 out.v("no-successor-time", f"{tag}: successor has no next execution time")
                 return out
@@ -203,8 +205,8 @@ def run_worker(case: dict) -> Outcome:
         tag = f"iteration {n_resched} (slot {s_iter:.6f}, completed {now:.6f}, period {p})"
         if prm.retries.already_tried != 0:
             out.v("counter-not-reset", f"{tag}: successor already_tried={prm.retries.already_tried}")
-        if vclock.secs(prm.timestamp) < now - 1e-6:
-            out.v("ttl-clock-not-restarted", f"{tag}: successor timestamp {prm.timestamp} before {now:.6f}")
+        if abs(vclock.secs(prm.timestamp) - now) > 1e-6:
+            out.v("ttl-clock-not-restarted", f"{tag}: successor timestamp {prm.timestamp}, but it was scheduled at {now:.6f}")
         if s_next is None:
             out.v("no-successor-time", f"{tag}: no next execution time")
             break
@@ -268,7 +270,7 @@ CHECK = Check(
         "iterations with delivery-latency/duration profiles (constant, growing, shrinking, random, tiny, longer than the period) and "
         "retry chains; every iteration calls the real _prepare_retry/_prepare_reschedule under a pinned clock. (ii) worker-level: period "
         "1-4 s, 2-4 iterations, failing attempts with retries, competing jobs under tasks_limit=1, three brokers. Oracle: per completed "
-        "iteration exactly one successor (one requeue, one copy in the broker), already_tried=0, timestamp >= now (TTL restarted), "
+        "iteration exactly one successor (one requeue, one copy in the broker), already_tried=0, timestamp == now (TTL restarted at the rescheduling), "
         "now < S_next <= now+p, S_next >= S_prev+p, first run not before deferred_until, no run before its slot (1 ms). "
         "(iii) fleet-*: one recurring job served by 2-3 workers with their own connections, stopped (and replaced) at generated instants "
         "while the others keep running: every slot runs exactly once, slots are a full period apart, one live copy at the end. "
